@@ -33,31 +33,42 @@ def check_parsers(ctx, s, budget=False, containers=False):
     """parse / iterparse / parse_triples on string *s* against the reference
     recogniser.  Returns number of accepted results (for non-triviality)."""
     n = len(s) if budget else None
-    accepted = 0
-    # --- parse
-    got = _real(ctx, 'parse', lambda x: _tree(penman.parse(x)), s, n=n)
-    exp = _ref(lambda x: R.ref_parse(x), s)
-    if got[0] != 'exc' and got != _norm(exp):
-        ctx.fail('parse!=reference', mech=f'{got[0]}-vs-{exp[0]}',
-                 detail={'input': s[:300], 'got': repr(got)[:400], 'reference': repr(_norm(exp))[:400]},
-                 payload=['str', {'s': s}])
-    accepted += got[0] == 'ok'
-    # --- iterparse
-    got = _real(ctx, 'iterparse', lambda x: [_tree(t) for t in penman.iterparse(x)], s, n=n)
-    exp = _ref(lambda x: [(nd, m) for nd, m in R.ref_iterparse(x)], s)
-    if got[0] != 'exc' and got != _norm(exp):
-        ctx.fail('iterparse!=reference', mech=f'{got[0]}-vs-{exp[0]}',
-                 detail={'input': s[:300], 'got': repr(got)[:400], 'reference': repr(_norm(exp))[:400]},
-                 payload=['str', {'s': s}])
-    accepted += got[0] == 'ok' and bool(got[1])
-    # --- parse_triples
-    got = _real(ctx, 'parse_triples', penman.parse_triples, s, n=n)
-    exp = _ref(R.ref_parse_triples, s)
-    if got[0] != 'exc' and got != exp:
-        ctx.fail('parse_triples!=reference', mech=f'{got[0]}-vs-{exp[0]}',
-                 detail={'input': s[:300], 'got': repr(got)[:400], 'reference': repr(exp)[:400]},
-                 payload=['str', {'s': s}])
-    accepted += got[0] == 'ok'
+    acc = [0]
+
+    def do_parse():
+        got = _real(ctx, 'parse', lambda x: _tree(penman.parse(x)), s, n=n)
+        exp = _ref(lambda x: R.ref_parse(x), s)
+        if got[0] != 'exc' and got != _norm(exp):
+            ctx.fail('parse!=reference', mech=f'{got[0]}-vs-{exp[0]}',
+                     detail={'input': s[:300], 'got': repr(got)[:400], 'reference': repr(_norm(exp))[:400]},
+                     payload=['str', {'s': s}])
+        acc[0] += got[0] == 'ok'
+
+    def do_iterparse():
+        got = _real(ctx, 'iterparse', lambda x: [_tree(t) for t in penman.iterparse(x)], s, n=n)
+        exp = _ref(lambda x: [(nd, m) for nd, m in R.ref_iterparse(x)], s)
+        if got[0] != 'exc' and got != _norm(exp):
+            ctx.fail('iterparse!=reference', mech=f'{got[0]}-vs-{exp[0]}',
+                     detail={'input': s[:300], 'got': repr(got)[:400], 'reference': repr(_norm(exp))[:400]},
+                     payload=['str', {'s': s}])
+        acc[0] += got[0] == 'ok' and bool(got[1])
+
+    def do_triples():
+        got = _real(ctx, 'parse_triples', penman.parse_triples, s, n=n)
+        exp = _ref(R.ref_parse_triples, s)
+        if got[0] != 'exc' and got != exp:
+            ctx.fail('parse_triples!=reference', mech=f'{got[0]}-vs-{exp[0]}',
+                     detail={'input': s[:300], 'got': repr(got)[:400], 'reference': repr(exp)[:400]},
+                     payload=['str', {'s': s}])
+        acc[0] += got[0] == 'ok'
+
+    # the three entry points share the lexer: call them in a data-dependent order so that
+    # state leaking from one call into the next (caches keyed too coarsely) cannot hide
+    steps = [do_parse, do_iterparse, do_triples]
+    k = (len(s) + (ord(s[0]) if s else 0)) % 3
+    for f in steps[k:] + steps[:k]:
+        f()
+    accepted = acc[0]
     if containers:
         # the codec methods and the list-of-lines presentation must agree
         c = penman.PENMANCodec()
